@@ -1590,14 +1590,10 @@ StylesheetHandler::processingInstruction(
             const XMLCh* const  /*target*/,
             const XMLCh* const  /*data*/)
 {
-    if (isXMLWhitespace(m_accumulateText) == false)
-    {
-        processAccumulatedText();
-    }
-    else
-    {
-        m_accumulateText.clear();
-    }
+    // A processing instruction ends the text node before it.  Whether a
+    // text node of white space is kept (xml:space="preserve") is decided
+    // where all text nodes are processed.
+    processAccumulatedText();
 }
 
 
@@ -1691,36 +1687,9 @@ StylesheetHandler::processText(
                 parent,
                 elem);
         }
-        else if (isWhite)
-        {
-            bool    shouldPush = true;
-
-            ElemTemplateElement* const  last = parent->getLastChildElem();
-
-            if (0 != last)
-            {
-                // If it was surrounded by xsl:text, it will count as an element.
-                const bool  isPrevCharData =
-                    StylesheetConstructionContext::ELEMNAME_TEXT_LITERAL_RESULT == last->getXSLToken();
-
-                const bool  isLastPoppedXSLText = (m_lastPopped != 0) &&
-                        (StylesheetConstructionContext::ELEMNAME_TEXT == m_lastPopped->getXSLToken());
-
-                if (isPrevCharData == true && isLastPoppedXSLText == false)
-                {
-                    appendChildElementToParent(
-                        parent,
-                        elem);
-
-                    shouldPush = false;
-                }
-            }
-
-            if (shouldPush)
-            {
-                m_whiteSpaceElems.push_back(elem);
-            }
-        }
+        // A text node of the stylesheet that contains only white space is
+        // not part of the tree (XSLT 3.4), wherever it stands: comments and
+        // processing instructions separate text nodes like elements do.
     }
     // TODO: Flag error if text inside of stylesheet
 }
